@@ -515,30 +515,47 @@ func RunC14(c *core.Ctx) {
 				}
 			}
 		}
-		// callbacks: exactly one per key-changing mutation, in order, after the index commit
-		w.cbMu.Lock()
-		problems := []string{}
-		var exp []rec
-		for _, m := range muts {
-			b, a := m["b"].(rec), m["a"].(rec)
-			if b["idx"] != a["idx"] || (b["idx"] == true && fmt.Sprint(b["key"]) != fmt.Sprint(a["key"])) {
-				exp = append(exp, m)
-			}
-		}
-		if len(exp) != len(w.cbs) {
-			problems = append(problems, fmt.Sprintf("%d query-change callbacks for %d key-changing mutations", len(w.cbs), len(exp)))
-		} else {
-			for i := range exp {
-				if fmt.Sprint(exp[i]["b"]) != fmt.Sprint(w.cbs[i]["b"]) || fmt.Sprint(exp[i]["a"]) != fmt.Sprint(w.cbs[i]["a"]) {
-					problems = append(problems, fmt.Sprintf("callback %d reports %v -> %v, mutation was %v -> %v", i+1, w.cbs[i]["b"], w.cbs[i]["a"], exp[i]["b"], exp[i]["a"]))
-				}
-				if w.cbs[i]["afterCommit"] != true {
-					problems = append(problems, fmt.Sprintf("callback %d ran before the index transaction committed", i+1))
-				}
-			}
-		}
-		w.cbMu.Unlock()
+		problems := cbProblems(w, muts)
 		recs = append(recs, rec{"kind": "callbacks", "problems": problems, "dbg": fmt.Sprintf("history %d", h)})
+		w.close()
+	}
+	// a backlog longer than the index task queue: the indexer is held while one writer makes 330 changes
+	// (most ids are changed again while their earlier change is still pending), then released
+	for h := 0; h < c.Pick(3, 16); h++ {
+		w, err := newC13World([]string{"", "pfx."}[h%2])
+		if err != nil {
+			break
+		}
+		atomic.StoreInt32(&w.hold, 1)
+		wrng := rand.New(rand.NewSource(c.Seed*137 + int64(h)))
+		var muts []rec
+		done := make(chan struct{})
+		go func() {
+			defer close(done)
+			for i := 0; i < 330; i++ {
+				id, key, del := randMutation(w, wrng)
+				w.mutateTxnObs(id, []mutOp{{key, del}}, i, func(_, _ []rec, b, a rec) { muts = append(muts, rec{"b": b, "a": a}) })
+			}
+		}()
+		select {
+		case <-w.atGate:
+		case <-time.After(2 * time.Second):
+		}
+		select {
+		case <-done:
+		case <-time.After(40 * time.Millisecond):
+		}
+		atomic.StoreInt32(&w.hold, 0)
+		close(w.gate)
+		select {
+		case <-done:
+		case <-time.After(30 * time.Second):
+			c.Inconclusive("c14 backlog history %d: the writer did not finish", h)
+			w.close()
+			continue
+		}
+		w.qs.Flush()
+		recs = append(recs, rec{"kind": "callbacks", "problems": cbProblems(w, muts), "dbg": fmt.Sprintf("backlog history %d: 330 changes while the indexer was held", h)})
 		w.close()
 	}
 	// through the query handler: a client of the served query resource is told whenever its result differs
@@ -564,6 +581,51 @@ func RunC14(c *core.Ctx) {
 	if len(recs) > 0 {
 		c.Sample(trimRec(recs[0].(rec)))
 	}
+}
+
+// cbProblems compares the query-change callbacks seen so far with the mutations made: exactly one per
+// key-changing mutation, in mutation order, after the index commit.
+func cbProblems(w *c13world, muts []rec) []string {
+	w.cbMu.Lock()
+	defer w.cbMu.Unlock()
+	problems := []string{}
+	var exp []rec
+	for _, m := range muts {
+		b, a := m["b"].(rec), m["a"].(rec)
+		if b["idx"] != a["idx"] || (b["idx"] == true && fmt.Sprint(b["key"]) != fmt.Sprint(a["key"])) {
+			exp = append(exp, m)
+		}
+	}
+	if len(exp) != len(w.cbs) {
+		return append(problems, fmt.Sprintf("%d query-change callbacks for %d key-changing mutations", len(w.cbs), len(exp)))
+	}
+	// the order is promised per id
+	perID := map[string][]rec{}
+	for _, m := range exp {
+		id := fmt.Sprint(m["b"].(rec)["id"])
+		perID[id] = append(perID[id], m)
+	}
+	pos := map[string]int{}
+	for i, cb := range w.cbs {
+		id := fmt.Sprint(cb["b"].(rec)["id"])
+		k := pos[id]
+		pos[id]++
+		if k >= len(perID[id]) {
+			problems = append(problems, fmt.Sprintf("callback %d: more callbacks for id %s than key-changing mutations of it", i+1, id))
+			continue
+		}
+		m := perID[id][k]
+		if fmt.Sprint(m["b"]) != fmt.Sprint(cb["b"]) || fmt.Sprint(m["a"]) != fmt.Sprint(cb["a"]) {
+			problems = append(problems, fmt.Sprintf("callback %d reports %v -> %v, key-changing mutation %d of that id was %v -> %v", i+1, cb["b"], cb["a"], k+1, m["b"], m["a"]))
+		}
+		if cb["afterCommit"] != true {
+			problems = append(problems, fmt.Sprintf("callback %d ran before the index transaction committed", i+1))
+		}
+		if len(problems) > 6 {
+			break
+		}
+	}
+	return problems
 }
 
 func trimRec(m rec) rec {
